@@ -60,10 +60,34 @@ Mixed(kind, side) ==
           Entry(<< >>, "s1", "k2", [CoSub EXCEPT !.sigs = <<GoodSig("k2")>>]),
           CoInner("k2", kind, side)>>, {})
 
+\* the co-signed sub-layout has TWO steps: its summary reports the materials of the first and the products of the
+\* last.  A dissent at the "edge" (first step's materials / last step's products) shows in the summary; one in the
+\* "middle" (last step's materials / first step's products) does not.
+CoSub2 == LayoutD(<<GoodSig("k1"), GoodSig("k2")>>, 1000, <<"k3">>,
+                  <<StepD("in1", <<"k3">>, 1, <<Simple("ALLOW", <<"*">>)>>, <<Simple("ALLOW", <<"*">>)>>),
+                    StepD("in2", <<"k3">>, 1, <<Simple("ALLOW", <<"*">>)>>, <<Simple("ALLOW", <<"*">>)>>)>>, << >>)
+CoInner2(k, kind, side, where) ==
+  LET d == Dissent(kind)
+      firstHas == (where = "edge" /\ side = "mats") \/ (where = "middle" /\ side = "prods")
+  IN <<Entry(<<"s1." \o k>>, "in1", "k3",
+             LinkD("in1", <<GoodSig("k3")>>,
+                   IF firstHas /\ side = "mats" THEN d ELSE Base, IF firstHas /\ side = "prods" THEN d ELSE Base)),
+       Entry(<<"s1." \o k>>, "in2", "k3",
+             LinkD("in2", <<GoodSig("k3")>>,
+                   IF ~firstHas /\ side = "mats" THEN d ELSE Base, IF ~firstHas /\ side = "prods" THEN d ELSE Base))>>
+CoFiled2(who, kind, side, where) ==
+  Build(Layout(2, <<"k1", "k2">>), Own("o1"),
+        <<Entry(<< >>, "s1", "k1", CoSub2), Entry(<< >>, "s1", "k2", CoSub2)>>
+        \o CoInner2("k1", IF who = "k1" THEN kind ELSE "none", side, where)
+        \o CoInner2("k2", IF who = "k2" THEN kind ELSE "none", side, where), {})
+
 CoInit ==
-  \E who \in {"k1", "k2"}, kind \in Kinds7, side \in {"mats", "prods"}, mixed \in BOOLEAN :
-     /\ (mixed => who = "k2")
-     /\ scn = IF mixed THEN Mixed(kind, side) ELSE CoFiled(who, kind, side)
+  \/ \E who \in {"k1", "k2"}, kind \in Kinds7, side \in {"mats", "prods"}, mixed \in BOOLEAN :
+       /\ (mixed => who = "k2")
+       /\ scn = IF mixed THEN Mixed(kind, side) ELSE CoFiled(who, kind, side)
+  \/ \E who \in {"k1", "k2"}, kind \in {"none", "digest", "extra", "missing", "path"}, side \in {"mats", "prods"},
+        where \in {"edge", "middle"} :
+       scn = CoFiled2(who, kind, side, where)
 
 \* the ord-th permutation of a sequence of length 2 or 3
 Permute(q, ord) ==
